@@ -64,7 +64,7 @@ def make3 {α : Type} (n c : Int) (z : α) : M (List α) :=
 /-! ### `float64` (finite values): the exact rational value
 
 `math.Max`, `math.Abs` on finite values; `math.Ldexp(x, k)` = `x·2^k` (exact in binary floating point
-as long as the result neither overflows nor is subnormal — `clipLine` keeps `|k| ≤ 1000` and the
+as long as the result neither overflows nor is subnormal — `clipLine` keeps `|k| ≤ 1021` and the
 coordinates below 1); `math.Frexp(m)` returns `(f, e)` with `m = f·2^e`, `1/2 ≤ f < 1` for finite `m > 0`;
 only `e` is used.  NaN and ±Inf have no counterpart (the property is about finite coordinates; with a
 NaN or Inf coordinate `clipLine` takes the unscaled branch). -/
